@@ -53,6 +53,19 @@ def history_case(args):
         sc.plant(sp.files)
         crashed = t3.run_impl(sc, sp, crash="%s:%d" % point, timeout=60)
         problems = []
+        rstats = {}
+        def replayed(impl, files, leftover_dirs=(), crash=None):
+            # the event log of this run replayed through the task machine, started from the files the run found
+            sp2 = t3.Spec(sp.max, sp.bufsize); sp2.nodes = sp.nodes; sp2.files = dict(files)
+            m2 = t3.run_model(sp2.text())
+            if m2["status"] != "done":
+                return []
+            r2 = {}
+            out = t3.replay_problems(sp2, m2, impl, ("tasks",), stats=r2, crash=crash, leftover_dirs=leftover_dirs)
+            for k, v in r2.items():
+                rstats[k] = (rstats.get(k, 0) + v) if isinstance(v, int) else v
+            return out
+        problems += replayed(crashed, sp.files, crash=point)
         after_crash = crashed["fs"]
         d2 = mid_finalize(model, after_crash, sp.files)
         final_before = {p: (v[2], v[3], v[1]) for p, v in after_crash.items()
@@ -60,6 +73,7 @@ def history_case(args):
         left = t3.leftovers(after_crash)
         # 1. re-run without cleaning up: must not adopt leftovers
         rer = t3.run_impl(sc, sp, timeout=60)
+        problems += replayed(rer, t3.data_files(after_crash), leftover_dirs=[p for p in left if os.path.basename(p).startswith("_scipipe_tmp")])
         if [p for p in left if os.path.basename(p).startswith("_scipipe_tmp")]:
             # some task of the re-run meets its own temp dir unless its outputs are already final: it then must refuse
             # every task is formed again by the re-run, so the task that owns a left-over temp dir is reached: the run must stop
@@ -75,7 +89,9 @@ def history_case(args):
             d2 = d2 or mid_finalize(model, t3.snapshot_dir(sc.work), sp.files)
             cleanup(sc.work)
         # 2. clean up, run again: completes with the uninterrupted result, without re-executing finalized tasks
+        before_fin = t3.data_files(t3.snapshot_dir(sc.work))
         fin = t3.run_impl(sc, sp, timeout=60)
+        problems += replayed(fin, before_fin)
         conv = t3.compare_success(sp, model, fin)
         conv = [c for c in conv if c[0] != "tasks-differ"]
         done_before = {t["key"] for t in model["tasks"] if t["outs"] and all(os.path.normpath(o[2]) in final_before for o in t["outs"] if not o[1])}
@@ -86,7 +102,7 @@ def history_case(args):
             v = fin["fs"].get(p)
             if v and (v[2], v[3], v[1]) != st and not second:
                 conv.append(("finalized-file-changed", "file %r finalized before the crash was modified by the re-run" % p))
-        return {"spec": sp.text(), "bufsize": sp.bufsize, "problems": problems, "conv": conv, "d2": d2, "point": point, "second": second, "rc": fin["rc"],
+        return {"replay": rstats, "spec": sp.text(), "bufsize": sp.bufsize, "problems": problems, "conv": conv, "d2": d2, "point": point, "second": second, "rc": fin["rc"],
                 "stderr": fin["stderr"][-300:], "yield": None, "ntasks": len(model["tasks"]), "wall": crashed["wall"], "refused": rer["rc"] != 0, "leftovers": len(left)}
     finally:
         sc.close()
